@@ -23,6 +23,7 @@ tier = sys.argv[2] if len(sys.argv) > 2 else "quick"
 only = sys.argv[3] if len(sys.argv) > 3 else None
 rng = np.random.default_rng(seed)
 tmp = tempfile.mkdtemp()
+__import__("atexit").register(__import__("shutil").rmtree, tmp, True)
 ANG = 1.8897261246257702
 NM = 18.897261246257702
 groups = {}
